@@ -422,13 +422,14 @@ class LanguageInConstraintComponent(StringBasedConstraintBase):
                     if lang:
                         if wildcard:
                             flag = True
-                        elif str(lang).lower() in languages_need:
-                            flag = True
                         else:
-                            lang_parts = str(lang).split('-')
-                            first_part = lang_parts[0]
-                            if str(first_part).lower() in languages_need:
-                                flag = True
+                            # SPARQL langMatches (RFC 4647 basic filtering): a range matches a tag that
+                            # is equal to it or that has it as a prefix ending at a subtag boundary
+                            lang_parts = str(lang).lower().split('-')
+                            for i in range(len(lang_parts), 0, -1):
+                                if '-'.join(lang_parts[:i]) in languages_need:
+                                    flag = True
+                                    break
                 if not flag:
                     non_conformant = True
                     rept = self.make_v_result(target_graph, f, value_node=v)
